@@ -711,6 +711,30 @@ impl Prop for C08 {
                     Err(p) => x.violate("C08:panic", p),
                 }
             }
+            // constraint hints: the typed view keeps every hint, in order, with its content
+            if let Some(h) = &msg.constraint_hints {
+                let ctx = x.sut(|| -> Result<_, ommx::parse::ParseError> { Ok((msg.decision_variables.clone().parse(&())?, msg.constraints.clone().parse(&())?)) });
+                if let Ok(Ok(ctx)) = ctx {
+                    match x.sut(|| h.clone().parse(&ctx)) {
+                        Ok(Ok(t)) => {
+                            let oh_same = t.one_hot_constraints.len() == h.one_hot_constraints.len()
+                                && t.one_hot_constraints.iter().zip(&h.one_hot_constraints).all(|(a, b)| *a.id == b.constraint_id && a.variables.iter().map(|v| **v).collect::<BTreeSet<u64>>() == b.decision_variables.iter().copied().collect::<BTreeSet<u64>>());
+                            let sos_same = t.sos1_constraints.len() == h.sos1_constraints.len()
+                                && t.sos1_constraints.iter().zip(&h.sos1_constraints).all(|(a, b)| {
+                                    *a.binary_constraint_id == b.binary_constraint_id
+                                        && a.big_m_constraint_ids.iter().map(|v| **v).collect::<BTreeSet<u64>>() == b.big_m_constraint_ids.iter().copied().collect::<BTreeSet<u64>>()
+                                        && a.variables.iter().map(|v| **v).collect::<BTreeSet<u64>>() == b.decision_variables.iter().copied().collect::<BTreeSet<u64>>()
+                                });
+                            if !oh_same || !sos_same {
+                                x.violate("C08:typed-view:hints-content", format!("typed hints {:?} differ from the message's {} one-hot / {} sos1 hints", t, h.one_hot_constraints.len(), h.sos1_constraints.len()));
+                            }
+                            x.count("probe.hints_view_checked");
+                        }
+                        Ok(Err(e)) => x.violate("C08:typed-view:wellformed-rejected", format!("hints: {}", e)),
+                        Err(p) => x.violate("C08:panic", p),
+                    }
+                }
+            }
             for c in &msg.constraints {
                 match x.sut(|| c.clone().parse(&())) {
                     Ok(Ok(t)) => {
@@ -784,6 +808,6 @@ impl Prop for C08 {
         vec!["the faulty producer (mutation engine)", "OS randomness (seeded)"]
     }
     fn required_probes(&self, _t: Tier) -> Vec<&'static str> {
-        vec!["probe.wellformed_original", "probe.rejected_with_matching_rule", "probe.fault.DupVar", "probe.fault.DupConstraint", "probe.fault.UndefinedVar", "probe.fault.UnsetSense", "probe.fault.UnsetObjective", "probe.fault.UnsetOneof", "probe.fault.UnsetFunction", "probe.fault.UnsetKind", "probe.fault.UnsetEquality", "probe.fault.RemovedWithoutConstraint", "probe.fault.Bound", "probe.fault.HintOneHotUndefinedVar", "probe.fault.HintSos1RepeatedVar", "probe.fault.DepUndefinedKey", "probe.fault.ParamCollidesWithVar"]
+        vec!["probe.wellformed_original", "probe.hints_view_checked", "probe.rejected_with_matching_rule", "probe.fault.DupVar", "probe.fault.DupConstraint", "probe.fault.UndefinedVar", "probe.fault.UnsetSense", "probe.fault.UnsetObjective", "probe.fault.UnsetOneof", "probe.fault.UnsetFunction", "probe.fault.UnsetKind", "probe.fault.UnsetEquality", "probe.fault.RemovedWithoutConstraint", "probe.fault.Bound", "probe.fault.HintOneHotUndefinedVar", "probe.fault.HintSos1RepeatedVar", "probe.fault.DepUndefinedKey", "probe.fault.ParamCollidesWithVar"]
     }
 }
